@@ -24,7 +24,7 @@ DECLS == TLCEval(<<
    vals |-> <<{1, 2}, {1, 2}, {0, 1, 2}>>],
   \* 2: two looking columns in one batch, the second filtered by a selector, [f0, f1, t, m, s]
   [cols |-> 5, deg |-> 3, looking |-> <<C(0), C(1)>>, filters |-> <<NoF, C(4)>>, table |-> C(2), freq |-> C(3),
-   vals |-> <<{1, 2}, {1, 2}, {1, 2}, {0, 1, 2}, {0, 1}>>],
+   vals |-> <<{1, 2}, {1, 2}, {1, 2}, {0, 1}, {0, 1}>>],
   \* 3: the same with constraint degree 2 (two batches of one)
   [cols |-> 5, deg |-> 2, looking |-> <<C(0), C(1)>>, filters |-> <<NoF, C(4)>>, table |-> C(2), freq |-> C(3),
    vals |-> <<{1, 2}, {1, 2}, {1, 2}, {0, 1, 2}, {0, 1}>>],
